@@ -3,7 +3,7 @@
 From Coq Require Import List Bool String NArith.
 From TS Require Import Model.Str Model.Outcome Model.Unicode Model.Types Model.Parse Model.Lang.Common Model.Lang.Decl
                        Model.Lang.TypeScript Model.Lang.Kotlin Model.Lang.Swift Model.Lang.Scala Model.Lang.Go Model.Lang.Python.
-From TS Require Import Spec.C10Spec Proofs.C10_TSFile Proofs.C10_KT Proofs.C10_SC Proofs.C10_GOFile.
+From TS Require Import Spec.C10Spec Proofs.C10_TSFile Proofs.C10_KT Proofs.C10_SC Proofs.C10_GOFile Proofs.C10_SWFile Proofs.C10_PYFile.
 Import ListNotations.
 Local Open Scope N_scope.
 
@@ -95,7 +95,9 @@ Example C10_nonvacuous :
   c10_ts_cfg_ok w_ts_cfg = true /\ c10_kt_cfg_ok w_kt_cfg = true /\ c10_sc_cfg_ok (w_sc_cfg "com.x") = true /\ c10_go_cfg_ok w_go_cfg = true /\
   c10_scala_brace_class (sc_package (w_sc_cfg "com.x")) w_prog = false /\
   is_ok (ts_generate uc_exec w_ts_cfg w_prog) = true /\ is_ok (kt_generate uc_exec w_kt_cfg w_prog) = true /\
-  is_ok (sc_generate uc_exec (w_sc_cfg "com.x") w_prog) = true /\ is_ok (go_generate uc_exec w_go_cfg w_prog) = true.
+  is_ok (sc_generate uc_exec (w_sc_cfg "com.x") w_prog) = true /\ is_ok (go_generate uc_exec w_go_cfg w_prog) = true /\
+  c10_sw_cfg_ok w_sw_cfg = true /\ c10_py_cfg_ok w_py_cfg = true /\
+  is_ok (sw_generate uc_exec w_sw_cfg w_prog) = true /\ is_ok (py_generate uc_exec w_py_cfg w_prog) = true.
 Proof. repeat split; vm_compute; reflexivity. Qed.
 
 (* the whole-file theorems in the argument order of Props/C10.v *)
@@ -113,3 +115,9 @@ Lemma lex_go_partial (uc : unicode) (cfg : go_config) (pd : parsed) (text : str)
   unicode_ok uc -> c10_go_cfg_ok cfg = true -> go_uppercase_acronyms cfg = [] -> dom_C10 CGO pd = true ->
   go_generate uc cfg pd = Ok text -> good_C10_lex CGO text = true.
 Proof. intros Huc Hcfg Hacr Hdom H. exact (go_generate_balanced uc Huc cfg Hcfg Hacr pd text Hdom H). Qed.
+Lemma lex_swift (uc : unicode) (cfg : sw_config) (pd : parsed) (text : str) :
+  c10_sw_cfg_ok cfg = true -> dom_C10 CSW pd = true -> sw_generate uc cfg pd = Ok text -> good_C10_lex CSW text = true.
+Proof. intros Hcfg Hdom H. exact (sw_generate_balanced uc cfg Hcfg pd text Hdom H). Qed.
+Lemma lex_python (uc : unicode) (cfg : py_config) (pd : parsed) (text : str) :
+  unicode_ok uc -> c10_py_cfg_ok cfg = true -> dom_C10 CPY pd = true -> py_generate uc cfg pd = Ok text -> good_C10_lex CPY text = true.
+Proof. intros Huc Hcfg Hdom H. exact (py_generate_balanced uc Huc cfg Hcfg pd text Hdom H). Qed.
